@@ -10,7 +10,7 @@ harness-supplied `unicode.ToLower` oracle: the query side reads `Rn.lower` (a co
 `TRn.lowerBytes` / `lower2Bytes`, tied by `SV.Tok.WF` (`lowerBytes = enc r.lower`).  Added here: the remaining builder pair
 (keyword), the `_exists_` rule (case-sensitive whatever the configuration, both parsers, matching the unlowered index
 token), and the one place where the two parsers'
-case rules differ (range bounds) - a difference of the Go code that both models follow.
+case rules differ (range bounds; legacy side now parametrised by `rangeLower`: HEAD = false, proposed repair = true).
 -/
 namespace SV.Consistency
 open SV.Parser SV.Tok
@@ -54,8 +54,8 @@ theorem cons_casefold_exists_forces_cs_seqql (c : Cfg) (toks : List LTok) (p : L
   simp [fieldFilter, hp, PRes.bind, hn]
 
 /-- the same rule in the legacy parser (`parseLiteral`) -/
-theorem cons_casefold_exists_forces_cs_legacy (dp cs : Bool) (t : FT) (rs : List Rn) :
-    legacyLiteral dp cs tokenExists t rs = legacyLiteral dp true tokenExists t rs := by
+theorem cons_casefold_exists_forces_cs_legacy (dp rl cs : Bool) (t : FT) (rs : List Rn) :
+    legacyLiteral dp rl cs tokenExists t rs = legacyLiteral dp rl true tokenExists t rs := by
   cases rs with
   | nil => rfl
   | cons r rest => simp [legacyLiteral]
@@ -67,21 +67,36 @@ theorem cons_casefold_exists_token_unlowered (c : TokCfg) (t : MType) (key : Lis
     (indexField c [t] key v).getLast? = some (tokenExists, if t.title.isEmpty then key else t.title) := by
   simp [indexField, ho]
 
-/-- hence an `_exists_` filter parses to the same tree under every `conf.CaseSensitive` -/
-theorem cons_casefold_exists_independent_of_cfg (dp cs : Bool) (m : Option (List (List Nat × FT))) (toks : List LTok)
+/-- hence an `_exists_` filter parses to the same tree under every `conf.CaseSensitive` (and every `rangeLower`) -/
+theorem cons_casefold_exists_independent_of_cfg (dp cs rl : Bool) (m : Option (List (List Nat × FT))) (toks : List LTok)
     (p : List Rn × List LTok) (hp : compositeToken toks = .ok p) (hn : nameBytes p.1 = tokenExists) (cs' : Bool) :
-    fieldFilter ⟨dp, cs, m⟩ toks = fieldFilter ⟨dp, cs', m⟩ toks := by
-  rw [cons_casefold_exists_forces_cs_seqql ⟨dp, cs, m⟩ toks p hp hn, cons_casefold_exists_forces_cs_seqql ⟨dp, cs', m⟩ toks p hp hn]
+    fieldFilter ⟨dp, cs, m, rl⟩ toks = fieldFilter ⟨dp, cs', m, rl⟩ toks := by
+  rw [cons_casefold_exists_forces_cs_seqql ⟨dp, cs, m, rl⟩ toks p hp hn, cons_casefold_exists_forces_cs_seqql ⟨dp, cs', m, rl⟩ toks p hp hn]
 
-/-- **where the two parsers' case rules differ (Go code, both models follow it)**: a range bound `A` under
-case-insensitive configuration is lowered by SeqQL (`parseRangeTerm` -> `parseSeqQLKeyword(value, sensitive)`,
-parser/token_range.go:90) and kept as typed by the legacy parser (`singleTermBuilder.appendRune` never lowers,
-parser/term_builder.go:141-147).  Index tokens are lowered, so the legacy text range `[A TO B]` compares upper-case
-bounds with lower-case tokens.  Not a model disagreement: `rangeTerm` and `legacyRangeTerm` model different Go functions. -/
+/-- **where the two parsers' case rules differ**: a range bound `A` under case-insensitive configuration is lowered by
+SeqQL (`parseRangeTerm` -> `parseSeqQLKeyword(value, sensitive)`, parser/token_range.go:90).  The legacy parser's
+`singleTermBuilder` is modelled with the flag `Cfg.rangeLower` / `rl` (Model/LegacyParser.lean: `legacyLiteral` hands
+`legacyRange` the flag `if rl then cs else true`):
+* `rl = false` = /repo HEAD (731ccad): `singleTermBuilder{}` has no case flag and `appendRune` never lowers
+  (parser/term_builder.go:136-147, parser/token_parser.go:149) - the bound stays `A`, although index tokens are lowered;
+* `rl = true` = the proposed repair (/verif/fixes/C12-legacy-range-bounds-case.patch, not applied to /repo): the bound is
+  lowered like a literal, and the legacy parser then agrees with SeqQL.
+Both parsers are different Go functions; this was never a model-vs-model disagreement. -/
 theorem cons_casefold_range_bound_seqql_ne_legacy_witness :
     let A : Rn := ⟨[65], 65, true, false, false, 97, false⟩
     let sp : Rn := ⟨[32], 32, false, false, false, 32, true⟩
     rangeTerm false [⟨[A], false, false, .none⟩] = .ok (⟨false, [97]⟩, []) ∧
-    legacyRangeTerm [A, sp] = .ok (⟨false, [65]⟩, []) := by decide
+    legacyRangeTerm (if false then false else true) [A, sp] = .ok (⟨false, [65]⟩, []) ∧
+    legacyRangeTerm (if true then false else true) [A, sp] = .ok (⟨false, [97]⟩, []) := by decide
+
+/-- the flag handed to the legacy range parser: with `rl = false` (HEAD) it is `true` whatever the configuration, with
+`rl = true` it is the literal's own case flag (`conf.CaseSensitive`, forced `true` for `_exists_`) - read off
+`legacyLiteral` on a range literal -/
+theorem cons_casefold_legacy_range_flag (dp rl cs : Bool) (field : List Nat) (t : FT) (r : Rn) (rest : List Rn)
+    (hr : r.cp = 91 ∨ r.cp = 123) :
+    legacyLiteral dp rl cs field t (r :: rest) =
+      (legacyRange field (if rl then (if field = tokenExists then true else cs) else true) (r :: rest)).bind
+        fun p => .ok ([p.1], p.2) := by
+  simp [legacyLiteral, hr]
 
 end SV.Consistency
